@@ -1,11 +1,12 @@
 // c09: methods, embedding, interfaces and type switches (xreflect/lookup.go, fast/selector.go, fast/interface.go,
 // fast/switch_type.go).  For every random type hierarchy:
-//   (S) direct oracles, never the Coq model: go/types (offline type-check of the generated package: accept/reject of every
-//       site, types.LookupFieldOrMethod for every (type, name)) and the same package compiled with `go build`
-//       (batched oracle module, go 1.18): outputs of every accepted site must be equal;
-//   (M) the observations of xreflect Type.FieldByName / MethodByName and fast.Comp.TryLookupFieldOrMethod (count, index
-//       path, method index; before and after late method declarations, each lookup twice = cache hit) are written as Coq
-//       cases for Verif.C09.Model.
+//
+//	(S) direct oracles, never the Coq model: go/types (offline type-check of the generated package: accept/reject of every
+//	    site, types.LookupFieldOrMethod for every (type, name)) and the same package compiled with `go build`
+//	    (batched oracle module, go 1.18): outputs of every accepted site must be equal;
+//	(M) the observations of xreflect Type.FieldByName / MethodByName and fast.Comp.TryLookupFieldOrMethod (count, index
+//	    path, method index; before and after late method declarations, each lookup twice = cache hit) are written as Coq
+//	    cases for Verif.C09.Model.
 package main
 
 import (
